@@ -225,6 +225,54 @@ theorem si_add_dense (a b : SpatialInertia K) (h : a.m + b.m ≠ 0) :
   spatial_unfold
   ext <;> simp only [] <;> field_simp <;> ring1
 
+/-- **power is invariant under re-expression** of force and velocity in another frame -/
+theorem power_reexpress_invariant (R : Mat33 K) (h : IsProper R) (F V : SpatialVec K) :
+    (F.trot R).dot (V.trot R) = F.dot V := by
+  have hT := h.transpose
+  simp only [SpatialVec.trot, SpatialVec.dot, Mat33.tmulVec]
+  rw [hT.dot, hT.dot]
+
+/-! ### König: the central inertia of a cloud is the cloud's inertia about its mass centre -/
+
+/-- inertia about the origin, total mass and first moment of a cloud of point masses -/
+def cloudInertia : List (Vec3 K × K) → SymMat33 K
+  | [] => SymMat33.diag 0
+  | pm :: r => (cloudInertia r).add (Inertia.pointMassAt pm.1 pm.2)
+def cloudMass : List (Vec3 K × K) → K
+  | [] => 0
+  | pm :: r => cloudMass r + pm.2
+def cloudMoment : List (Vec3 K × K) → Vec3 K
+  | [] => Vec3.zero
+  | pm :: r => (cloudMoment r).add (Vec3.smul pm.2 pm.1)
+/-- the same cloud seen from the point `c` -/
+def cloudAbout (c : Vec3 K) : List (Vec3 K × K) → SymMat33 K
+  | [] => SymMat33.diag 0
+  | pm :: r => (cloudAbout c r).add (Inertia.pointMassAt (pm.1.sub c) pm.2)
+
+/-- the symmetric bilinear cross term of the point-mass inertia: `pm(p-c,m) = pm(p,m) - B(m p, c) + pm(c,m)` -/
+def crossTerm (a c : Vec3 K) : SymMat33 K :=
+  ⟨2 * (a.y * c.y + a.z * c.z), 2 * (a.x * c.x + a.z * c.z), 2 * (a.x * c.x + a.y * c.y),
+   -(a.x * c.y + a.y * c.x), -(a.x * c.z + a.z * c.x), -(a.y * c.z + a.z * c.y)⟩
+
+theorem cloudAbout_eq (c : Vec3 K) (l : List (Vec3 K × K)) :
+    cloudAbout c l = ((cloudInertia l).sub (crossTerm (cloudMoment l) c)).add (Inertia.pointMassAt c (cloudMass l)) := by
+  induction l with
+  | nil => simp only [cloudAbout, cloudInertia, cloudMoment, cloudMass, crossTerm, Inertia.pointMassAt, Vec3.zero,
+      SymMat33.diag, SymMat33.add, SymMat33.sub]; ext <;> simp only [] <;> ring1
+  | cons pm r ih =>
+    simp only [cloudAbout, cloudInertia, cloudMoment, cloudMass, ih]
+    simp only [crossTerm, Inertia.pointMassAt, SymMat33.add, SymMat33.sub, Vec3.add, Vec3.sub, Vec3.smul]
+    ext <;> simp only [] <;> ring1
+
+/-- **König / parallel-axis theorem for a whole body**: if `c` is the mass centre (`M c = Σ mᵢ pᵢ`), then
+`shiftToMassCenter` of the body's inertia about the origin is the body's inertia about `c` -/
+theorem shiftToMassCenter_cloud (l : List (Vec3 K × K)) (c : Vec3 K)
+    (hc : Vec3.smul (cloudMass l) c = cloudMoment l) :
+    Inertia.shiftToMassCenter (cloudInertia l) c (cloudMass l) = cloudAbout c l := by
+  rw [cloudAbout_eq, ← hc]
+  simp only [Inertia.shiftToMassCenter, crossTerm, Inertia.pointMassAt, SymMat33.add, SymMat33.sub, Vec3.smul]
+  ext <;> simp only [] <;> ring1
+
 /-! ## ArticulatedInertia -/
 
 /-- `ArticulatedInertia * SpatialVec` equals the dense product -/
@@ -335,20 +383,25 @@ theorem valid_sound (signif : K) (S : SymMat33 K) (h : Inertia.isValidInertiaMat
     simp only [not_lt] at c2 c3
     exact ⟨c1.1, c1.2.1, c1.2.2, c2.1, c2.2.1, c2.2.2, c3.1, c3.2.1, c3.2.2⟩
 
-/-- **rejection**: a negative moment, or a triangle inequality violated by more than the slop, is rejected -/
+/-- **rejection of what the code tests** (these are *necessary* conditions of a physical inertia; matrices that are invalid
+only because they are not positive semi-definite are NOT rejected, see `accepted_not_psd`): a negative moment, a triangle
+inequality violated by more than the slop, or a product of inertia exceeding its bound by more than the slop ⇒ rejected -/
 theorem invalid_rejected (signif : K) (S : SymMat33 K)
     (h : S.xx < 0 ∨ S.yy < 0 ∨ S.zz < 0 ∨
          S.xx + S.yy + max (S.xx + S.yy + S.zz) 1 * signif < S.zz ∨
          S.xx + S.zz + max (S.xx + S.yy + S.zz) 1 * signif < S.yy ∨
-         S.yy + S.zz + max (S.xx + S.yy + S.zz) 1 * signif < S.xx) :
+         S.yy + S.zz + max (S.xx + S.yy + S.zz) 1 * signif < S.xx ∨
+         S.xx + max (S.xx + S.yy + S.zz) 1 * signif < |2 * S.yz| ∨
+         S.yy + max (S.xx + S.yy + S.zz) 1 * signif < |2 * S.xz| ∨
+         S.zz + max (S.xx + S.yy + S.zz) 1 * signif < |2 * S.xy|) :
     Inertia.isValidInertiaMatrix signif S = false := by
   by_contra hne
   have hv : Inertia.isValidInertiaMatrix signif S = true := by
     cases hb : Inertia.isValidInertiaMatrix signif S
     · exact absurd hb hne
     · rfl
-  obtain ⟨a1, a2, a3, b1, b2, b3, -, -, -⟩ := valid_sound signif S hv
-  rcases h with h | h | h | h | h | h <;> linarith
+  obtain ⟨a1, a2, a3, b1, b2, b3, c1, c2, c3⟩ := valid_sound signif S hv
+  rcases h with h | h | h | h | h | h | h | h | h <;> linarith
 
 /-- every slop-free physical matrix is accepted, whatever nonnegative `signif` is used -/
 theorem physical_accepted (signif : K) (hs : 0 ≤ signif) (S : SymMat33 K) (h : IsPhysical S) :
